@@ -56,6 +56,38 @@ theorem C04_merged (t : Tree) : ∀ e ∈ mutualAddRemoves t,
       · cases hsome
     · cases hsome
 
+/-- **Only locations that have a string form are folded** (finding F68, repaired): a fold comes from a removed entry whose path
+renders (`isSome`), so two entries that merely share the absence of a path -- items of two different lists under keys without a
+literal form -- are never taken for one location. -/
+theorem C04_merged_has_path (t : Tree) : ∀ e ∈ mutualAddRemoves t,
+    e ∈ t ∨ ∃ r ∈ t, r.1 = .iterRemoved ∧ e.2.steps = r.2.steps ∧ (pathStr r.2.steps false).isSome = true := by
+  intro e he
+  simp only [mutualAddRemoves, List.mem_append, List.mem_filter, List.mem_filterMap] at he
+  rcases he with ⟨he, _⟩ | ⟨r, ⟨hr, hrc⟩, hsome⟩
+  · exact Or.inl he
+  · split at hsome
+    · rename_i hm
+      split at hsome
+      · simp at hsome; subst hsome
+        right
+        refine ⟨r, hr, by simpa using hrc, rfl, ?_⟩
+        simp only [Bool.and_eq_true] at hm
+        exact hm.1.1
+      · cases hsome
+    · cases hsome
+
+/-- ... and an entry at a location without a string form is kept as it is -/
+theorem C04_pathless_kept (t : Tree) (e : Cat × Level) (he : e ∈ t) (hp : pathStr e.2.steps false = none) :
+    e ∈ mutualAddRemoves t := by
+  simp only [mutualAddRemoves, List.mem_append, List.mem_filter]
+  left
+  refine ⟨he, ?_⟩
+  simp [hp]
+
+/-- such locations exist in the model: an item of a list under a tuple key has no string path -/
+example : pathStr [⟨.dict, some (.tuple [.int 1, .int 2]), some (.tuple [.int 1, .int 2])⟩, ⟨.iter, some (.int 2), some (.int 2)⟩] false = none := by
+  simp [pathStr, pathChars, Step.param, toPathKey]
+
 /-- a changed leaf really differs: different text, or numerically unequal numbers -/
 theorem C04_leaf_differs (steps : List Step) (a b : PyVal) :
     ∀ e ∈ leafDiff steps a b, e.1 = .valuesChanged ∧ e.2.t1 = some a ∧ e.2.t2 = some b ∧
